@@ -712,6 +712,27 @@ theorem angular_entry_mid_error (lat lon : Nat → ℝ) (N a b : Nat) (ha : a < 
   apply mul_le_mul_of_nonneg_left (le_trans (clamp_close c' _ hi.1 hi.2) hc)
   exact div_nonneg Real.pi_pos.le (by linarith)
 
+/-- **both regimes combined** — the form whose hypotheses the harness measures on every run
+(`cosine_error_observed`): all stored cosines are within `ηall` of the exact ones, those of
+pairs whose exact or computed angle lies outside `[m, π - m]` (near-coincident /
+near-antipodal pairs, the diagonal) even within `ηend`; then every entry is within
+`max (arccos (1 - ηend)) (π / (2 sin m) · ηall)` of the great-circle distance. -/
+theorem angular_entry_error_combined (lat lon : Nat → ℝ) (N a b : Nat) (ha : a < N) (hb : b < N)
+    (c' ηall ηend m bound : ℝ) (hm : 0 < m)
+    (hc : |c' - inner ℝ (nodeVec lat lon a) (nodeVec lat lon b)| ≤ ηall)
+    (hend : ¬ (m ≤ angularDistance realTrig lat lon N a b ∧
+          angularDistance realTrig lat lon N a b ≤ Real.pi - m ∧
+          m ≤ Real.arccos (clamp c') ∧ Real.arccos (clamp c') ≤ Real.pi - m) →
+        |c' - inner ℝ (nodeVec lat lon a) (nodeVec lat lon b)| ≤ ηend)
+    (h1 : Real.arccos (1 - ηend) ≤ bound) (h2 : Real.pi / (2 * Real.sin m) * ηall ≤ bound) :
+    |Real.arccos (clamp c') - angularDistance realTrig lat lon N a b| ≤ bound := by
+  by_cases hmid : m ≤ angularDistance realTrig lat lon N a b ∧
+      angularDistance realTrig lat lon N a b ≤ Real.pi - m ∧
+      m ≤ Real.arccos (clamp c') ∧ Real.arccos (clamp c') ≤ Real.pi - m
+  · exact le_trans (angular_entry_mid_error lat lon N a b ha hb c' ηall m hc hm hmid.1 hmid.2.1
+      hmid.2.2.1 hmid.2.2.2) h2
+  · exact le_trans (angular_entry_abs_error lat lon N a b ha hb c' ηend (hend hmid)) h1
+
 /-- a whole matrix of stored cosines within `η ≤ 2⁻²¹ - 2⁻³⁹` of the exact ones yields
 distances that obey the triangle inequality up to `3 · 2⁻¹⁰` — the slack the oracle uses. -/
 theorem angular_triangle_of_cos_error (lat lon : Nat → ℝ) (N : Nat) (C' : Nat → Nat → ℝ) (η : ℝ)
@@ -896,6 +917,28 @@ theorem outALD_mean (D A : Nat → Nat → α) (N : Nat) (nN : α) (i : Nat)
   obtain ⟨v, h1, h2, _⟩ := genALD_mean D A (fun i => sumTo N (fun j => A i j)) N nN i hA hd
     (by rw [hd]; exact hne)
   exact ⟨v, h1, by rw [← hd]; exact h2⟩
+
+/-- `undirected_adjacency()` is symmetric, and is the adjacency matrix itself when that is
+symmetric (undirected network) -/
+theorem undirAdj_symm (A : Nat → Nat → α) (i j : Nat) : undirAdj A i j = undirAdj A j i := by
+  unfold undirAdj
+  rcases lt_trichotomy (A i j) (A j i) with h | h | h
+  · rw [if_pos h, if_neg (not_lt.2 h.le)]
+  · rw [h]
+  · rw [if_neg (not_lt.2 h.le), if_pos h]
+
+theorem undirAdj_of_symm (A : Nat → Nat → α) (h : ∀ i j, A i j = A j i) : undirAdj A = A := by
+  funext i j
+  unfold undirAdj
+  rw [if_neg (by rw [h i j]; exact lt_irrefl _)]
+
+/-- for an undirected network `average_link_distance` and `max_link_distance` are the
+out-variants on the adjacency matrix itself (so `outALD_mean` / `maxLinkDist_spec` apply) -/
+theorem avgALD_undirected (D A : Nat → Nat → α) (N : Nat) (nN : α) (c : Bool) (i : Nat)
+    (h : ∀ i j, A i j = A j i) :
+    avgALD false D A N nN c i = outALD D A N nN c i ∧ maxLinkDistNet D A N i = maxLinkDist D A N i := by
+  simp only [avgALD, maxLinkDistNet, undirAdj_of_symm A h, outALD]
+  simp
 
 end LinkDistance
 
